@@ -584,6 +584,8 @@ fn sweep(cfg: &Config, decls: &[ArbDecl], n_sources: u64, keep_trace: bool, work
 /// all-FF / alternating sources of every length up to 64 (complete over that family).
 fn fixed_corpus(decls: &[ArbDecl], st: &mut Stats, ctx: &WorkerCtx, which: u64) {
     let decl = &decls[which as usize];
+    // every source of length 1 (length 0 is part of the pattern families below)
+    enum_last_byte(decl, &[], st, ctx, "short_corpus_calls.len1", u64::MAX - which);
     let patterns: [(&str, fn(usize) -> u8); 5] = [
         ("all_00", |_| 0x00),
         ("all_FF", |_| 0xFF),
@@ -635,6 +637,78 @@ fn fixed_corpus(decls: &[ArbDecl], st: &mut Stats, ctx: &WorkerCtx, which: u64) 
     }
 }
 
+/// Every source `prefix ++ [b]` for b in 0..=255 (one watchdog guard per 256 calls).
+fn enum_last_byte(decl: &ArbDecl, prefix: &[u8], st: &mut Stats, ctx: &WorkerCtx, counter: &'static str, tag: u64) {
+    let mut bytes = prefix.to_vec();
+    bytes.push(0);
+    let last = bytes.len() - 1;
+    let plan = || {
+        let mut p = plan_json(decl, prefix);
+        p["enumerate_suffix_bytes"] = json!(1);
+        p
+    };
+    ctx.guarded(plan, || {
+        for b in 0..=255u8 {
+            bytes[last] = b;
+            let r = call(decl, &bytes);
+            st.evaluations += 1;
+            st.steps += r.consumed as u64 + 1;
+            match &r.verdict {
+                CallVerdict::OkValid => st.inc("outcome.ok_valid"),
+                CallVerdict::ArbErr => st.inc("outcome.arbitrary_error"),
+                CallVerdict::Violation { invariant, signature, detail } => {
+                    st.inc("outcome.violation_raw");
+                    st.violation(Violation {
+                        run_index: tag,
+                        scenario: SCENARIO,
+                        decl: decl.name.to_string(),
+                        invariant: invariant.to_string(),
+                        signature: signature.clone(),
+                        detail: detail.clone(),
+                        plan: plan_json(decl, &bytes),
+                    });
+                }
+            }
+        }
+    });
+    st.add(counter, 256);
+}
+
+fn is_f32_decl(d: &ArbDecl) -> bool {
+    d.family == "float" && d.name.contains("F32")
+}
+
+/// Declarations whose every 2-byte source is executed: all in the thorough tier, a seed-chosen
+/// sixteenth in the quick tier.
+fn two_byte_selection(cfg: &Config, decls: &[ArbDecl]) -> Vec<usize> {
+    if cfg.thorough() {
+        return (0..decls.len()).collect();
+    }
+    let off = (cfg.seed % 16) as usize;
+    (0..decls.len()).filter(|i| i % 16 == off).collect()
+}
+
+/// f32 generators whose every 4-byte source (= every f32 bit pattern as the first word) is
+/// executed in the thorough tier: three, chosen by the seed.
+fn four_byte_selection(cfg: &Config, decls: &[ArbDecl]) -> Vec<usize> {
+    if !cfg.thorough() {
+        return vec![];
+    }
+    let f32s: Vec<usize> = (0..decls.len()).filter(|i| is_f32_decl(&decls[*i]) && decls[*i].text.contains("validate")).collect();
+    if f32s.is_empty() {
+        return vec![];
+    }
+    let mut rng = Rng::for_run(cfg.seed, SCENARIO_ID ^ 0x4b, 0);
+    let mut out = Vec::new();
+    while out.len() < 3.min(f32s.len()) {
+        let c = f32s[rng.usize_below(f32s.len())];
+        if !out.contains(&c) {
+            out.push(c);
+        }
+    }
+    out
+}
+
 fn run_check(cfg: &Config) -> i32 {
     let t0 = Instant::now();
     let mut determinism_diverged = false;
@@ -650,6 +724,40 @@ fn run_check(cfg: &Config) -> i32 {
         move |plan| hang_exit(&cfg2, plan),
         |i, st, ctx| fixed_corpus(&decls, st, ctx, i),
     );
+    let two = two_byte_selection(cfg, &decls);
+    let cfg3 = cfg.clone();
+    let two_ref = &two;
+    let decls_ref = &decls;
+    let st2 = runner::run_sharded(
+        two.len() as u64 * 256,
+        cfg.workers,
+        false,
+        HANG_LIMIT,
+        move |plan| hang_exit(&cfg3, plan),
+        |i, st, ctx| {
+            let d = &decls_ref[two_ref[(i / 256) as usize]];
+            enum_last_byte(d, &[(i % 256) as u8], st, ctx, "short_corpus_calls.len2", u64::MAX - 1_000_000 - i);
+        },
+    );
+    stats.merge(st2);
+    let four = four_byte_selection(cfg, &decls);
+    if !four.is_empty() {
+        let cfg4 = cfg.clone();
+        let four_ref = &four;
+        let st4 = runner::run_sharded(
+            four.len() as u64 * (1 << 24),
+            cfg.workers,
+            false,
+            HANG_LIMIT,
+            move |plan| hang_exit(&cfg4, plan),
+            |i, st, ctx| {
+                let d = &decls_ref[four_ref[(i >> 24) as usize]];
+                let p = (i & 0xFF_FFFF) as u32;
+                enum_last_byte(d, &[(p >> 16) as u8, (p >> 8) as u8, p as u8], st, ctx, "short_corpus_calls.f32_len4", u64::MAX - 2_000_000_000_000 - i);
+            },
+        );
+        stats.merge(st4);
+    }
     let sweep_stats = sweep(cfg, &decls, n_sources, false, cfg.workers);
     stats.merge(sweep_stats);
 
@@ -702,6 +810,14 @@ fn run_check(cfg: &Config) -> i32 {
     extra.insert("declarations".into(), json!(decls.iter().map(|d| d.name).collect::<Vec<_>>()));
     extra.insert("sources".into(), json!(n_sources));
     extra.insert(
+        "short_sources_executed_completely".into(),
+        json!({
+            "length_0_and_1": "every declaration",
+            "length_2": {"declarations": two.len(), "of": decls.len(), "names": if two.len() == decls.len() { json!("all") } else { json!(two.iter().map(|i| decls[*i].name).collect::<Vec<_>>()) }},
+            "length_4_f32_generators": four.iter().map(|i| decls[*i].name).collect::<Vec<_>>(),
+        }),
+    );
+    extra.insert(
         "determinism_probe".into(),
         json!({"runs": 2048, "worker_counts": [3, cfg.workers.max(2)], "event_logs_identical": true}),
     );
@@ -719,11 +835,11 @@ fn run_check(cfg: &Config) -> i32 {
         wall,
         EvidenceExtra {
             level: "exploration",
-            rule: "one evaluation = one call of <T as Arbitrary>::arbitrary on a byte source prefix. Sources: (a) fixed corpus: for every declaration all-00/all-FF/FF00/all-20/all-7F of every length 0..=64; (b) seeded swarm of boundary segments (zeros, ones, near-MAX words, NaN/inf/subnormal patterns, whitespace and case-expanding chars, int_in_range boundary words, random) and for each source EVERY cut length 0..=len (exhaustion point enumerated completely). Non-trivial = the source ran dry inside the call, was empty, or carried a boundary segment; distinct = distinct (declaration, outcome class, value class relative to declared bounds, ran-dry flag, cut length, bytes consumed) tuples, counted by hashing into a set.".into(),
+            rule: "one evaluation = one call of <T as Arbitrary>::arbitrary on a byte source prefix. Sources: (a) fixed corpus: for every declaration all-00/all-FF/FF00/all-20/all-7F of every length 0..=64, every 1-byte source, every 2-byte source for the declarations listed under short_sources_executed_completely (all of them in the thorough tier), and in the thorough tier every 4-byte source for three seed-chosen validated f32 generators; (b) seeded swarm of boundary segments (zeros, ones, near-MAX words, NaN/inf/subnormal patterns, whitespace and case-expanding chars, int_in_range boundary words, random) and for each source EVERY cut length 0..=len (exhaustion point enumerated completely). Non-trivial = the source ran dry inside the call, was empty, or carried a boundary segment; distinct = distinct (declaration, outcome class, value class relative to declared bounds, ran-dry flag, cut length, bytes consumed) tuples, counted by hashing into a set.".into(),
             assumptions: vec![
                 "the hand-written validity models in nusim/cat-c09 state the declared validators correctly (independent of the macro)".into(),
                 "arbitrary 1.3.2's Unstructured is the byte source (real code)".into(),
-                "seeded sampling of sources: a clean run is evidence, not proof; exhaustive enumeration of all n-byte inputs is not attempted (other technique)".into(),
+                "seeded sampling of sources: a clean run is evidence, not proof; sources longer than the completely executed short ones are sampled, not enumerated".into(),
             ],
             real_components: vec!["nutype_macros expansion from /repo (Arbitrary, try_new, sanitize, validate)", "arbitrary::Unstructured", "core/alloc/std"],
             stub_components: vec!["byte source (seeded swarm + fixed corpus)", "exhaustion fault = prefix cut"],
@@ -756,6 +872,8 @@ fn run_replay(cfg: &Config, path: &str) -> i32 {
         report::harness_error(&format!("replay names unknown declaration {name:?}"))
     };
     let bytes = unhex(v["plan"]["bytes_hex"].as_str().unwrap_or(""));
+    // A hang met while enumerating the last byte records the prefix only.
+    let enumerate_last = v["plan"]["enumerate_suffix_bytes"].as_u64().unwrap_or(0) == 1;
     let want_sig = v["signature"].as_str().unwrap_or("").to_string();
     // The watchdog applies to replay as well (a recorded hang must hang again).
     let cfg2 = cfg.clone();
@@ -774,6 +892,17 @@ fn run_replay(cfg: &Config, path: &str) -> i32 {
             hang_exit(&cfg2, plan)
         },
         |_, st, ctx| {
+            if enumerate_last {
+                ctx.guarded(|| plan.clone(), || {
+                    let mut b = bytes.clone();
+                    b.push(0);
+                    for x in 0..=255u8 {
+                        *b.last_mut().unwrap() = x;
+                        let _ = call(decl, &b);
+                    }
+                });
+                return;
+            }
             let r = ctx.guarded(|| plan.clone(), || call(decl, &bytes));
             if let CallVerdict::Violation { invariant, signature, detail } = r.verdict {
                 st.violation(Violation {
